@@ -21,15 +21,17 @@ Leaf == {S(k) : k \in SiteKinds}
         \cup (IF "userdecl" \in ItemKinds THEN {UserDecl("_slot"), UserDecl("_a"), UserDecl("_createVNode"), UserDecl("_isSlot"), UserDecl("_Fragment")} ELSE {})
         \cup (IF "classfield" \in ItemKinds THEN {ClassField(S(k)) : k \in SiteKinds \cap {"call", "ident"}} ELSE {})
         \cup (IF "arrow" \in ItemKinds THEN {ArrowExpr(S(k)) : k \in SiteKinds} \cup {ArrowExpr(Assign("a", S("ident")))} ELSE {})
-        \cup (IF "arrowparam" \in ItemKinds
+ArrowParamItems ==
+             (IF "arrowparam" \in ItemKinds
               THEN {ArrowP(S("call"), S(k2)) : k2 \in SiteKinds \cap {"plain", "call"}}
                    \cup {ArrowP(S(k), S("plain")) : k \in SiteKinds \cap {"ident"}}
                    \cup {ArrowBlockP(S("call"), <<>>)} \cup {ArrowBlockP(S("call"), <<S(k2)>>) : k2 \in SiteKinds \cap {"call"}}
               ELSE {})
+LeafAt(d) == IF d + 1 >= Depth THEN Leaf \cup ArrowParamItems ELSE Leaf      \* (not at the deepest level of the thorough tier)
 Bodies(d) == UNION {[1..n -> Items(d)] : n \in 0..MaxBody}
 Items(d) ==
-  IF d = 0 THEN Leaf
-  ELSE Leaf
+  IF d = 0 THEN LeafAt(0)
+  ELSE LeafAt(d)
        \cup (IF "fn" \in ItemKinds THEN {FnItem(b) : b \in Bodies(d - 1)} ELSE {})
        \cup (IF "block" \in ItemKinds THEN {Block(b) : b \in Bodies(d - 1) \ {<<>>}} ELSE {})
        \cup (IF "arrowblock" \in ItemKinds THEN {ArrowBlock(b) : b \in Bodies(d - 1) \ {<<>>}} ELSE {})
